@@ -5,6 +5,9 @@ import LibfiberVerif.Model.Mpmc
 
 namespace LibfiberVerif.Mpmc
 
+set_option linter.unusedSimpArgs false
+set_option linter.unusedVariables false
+
 /-! ### what a program counter holds (projections used by the invariant) -/
 
 /-- the node the thread owns exclusively (taken from the free list, not yet in the queue) -/
@@ -85,6 +88,19 @@ def linking : Pc → Option (Nat × Nat)
   | .pushCased n _ tl => some (n, tl)
   | _ => none
 
+theorem atHead_hold0 {p : Pc} {h : Nat} (e : atHead p = some h) : hold0 p = some h := by
+  cases p <;> simp_all [atHead, hold0]
+theorem sawPrev_hold0 {p : Pc} {h q : Nat} (e : sawPrev p = some (h, q)) : hold0 p = some h := by
+  cases p <;> simp_all [sawPrev, hold0]
+theorem sawVal_hold1 {p : Pc} {q x : Nat} (e : sawVal p = some (q, x)) : hold1 p = some q := by
+  cases p <;> simp_all [sawVal, hold1]
+theorem linking_hold0 {p : Pc} {n tl : Nat} (e : linking p = some (n, tl)) : hold0 p = some tl := by
+  cases p <;> simp_all [linking, hold0]
+theorem ownVal_own {p : Pc} {n v : Nat} (e : ownVal p = some (n, v)) : own p = some n := by
+  cases p <;> simp_all [ownVal, own]
+theorem ownInit_own {p : Pc} {n : Nat} (e : ownInit p = some n) : own p = some n := by
+  cases p <;> simp_all [ownInit, own]
+
 /-! ### list helpers -/
 
 theorem mem_clr {l : List (Nat × Nat)} {t u n : Nat} :
@@ -140,5 +156,1049 @@ structure Inv (s : St) : Prop where
 theorem inv_init : Inv init := by
   constructor <;> simp [init, own, ownVal, ownInit, hold0, hold1, atHead, sawPrev, sawVal, linking]
   · intro n; split <;> simp
+
+
+/-! ### frame lemma: the thread's pc changes, protections change compatibly, and cells the
+    invariant does not mention (`slot0`, `slot1`, `next`) change arbitrarily -/
+
+theorem inv_pc {s : St} (hI : Inv s) (t : Nat) (B : Pc) (p0 p1 : List (Nat × Nat))
+    (sl0 sl1 nx : Nat → Option Nat)
+    (hp0 : ∀ u n, (u, n) ∈ p0 → s.life n = .inq ∨ s.life n = .retired)
+    (hp0' : ∀ u n, u ≠ t → (u, n) ∈ s.prot0 → (u, n) ∈ p0)
+    (hp1 : ∀ u n, (u, n) ∈ p1 → s.life n = .inq ∨ s.life n = .retired)
+    (hp1' : ∀ u n, u ≠ t → (u, n) ∈ s.prot1 → (u, n) ∈ p1)
+    (h_own : ∀ n, own B = some n → s.life n = .owned t)
+    (h_val : ∀ n v, ownVal B = some (n, v) → s.value n = v)
+    (h_init : ∀ n, ownInit B = some n → s.prev n = none)
+    (h_h0 : ∀ n, hold0 B = some n → (t, n) ∈ p0)
+    (h_h1 : ∀ n, hold1 B = some n → (t, n) ∈ p1)
+    (h_at : ∀ h, atHead B = some h → s.pos h ≤ s.hd)
+    (h_sp : ∀ h p, sawPrev B = some (h, p) → s.prev h = some p)
+    (h_sv : ∀ p x, sawVal B = some (p, x) → s.value p = x)
+    (h_link : linking B = linking (s.pc t)) :
+    Inv { s with pc := upd s.pc t B, prot0 := p0, prot1 := p1, slot0 := sl0, slot1 := sl1, next := nx } := by
+  constructor <;> simp only []
+  case hd_lt => exact hI.hd_lt
+  case head_eq => exact hI.head_eq
+  case tail_eq => exact hI.tail_eq
+  case q_life => exact hI.q_life
+  case q_pos => exact hI.q_pos
+  case inq_pos => exact hI.inq_pos
+  case ret_prev => exact hI.ret_prev
+  case q_prev => exact hI.q_prev
+  case q_val => exact hI.q_val
+  case p0_life => exact hp0
+  case p1_life => exact hp1
+  case pushed_len => exact hI.pushed_len
+  case pushed_val => exact hI.pushed_val
+  case popped_eq => exact hI.popped_eq
+  case own_life =>
+    intro u n; by_cases hu : u = t
+    · subst hu; simpa using h_own n
+    · simpa [hu] using hI.own_life u n
+  case own_val =>
+    intro u n v; by_cases hu : u = t
+    · subst hu; simpa using h_val n v
+    · simpa [hu] using hI.own_val u n v
+  case own_init =>
+    intro u n; by_cases hu : u = t
+    · subst hu; simpa using h_init n
+    · simpa [hu] using hI.own_init u n
+  case hold0_in =>
+    intro u n; by_cases hu : u = t
+    · subst hu; simpa using h_h0 n
+    · simp [hu]; intro h; exact hp0' u n hu (hI.hold0_in u n h)
+  case hold1_in =>
+    intro u n; by_cases hu : u = t
+    · subst hu; simpa using h_h1 n
+    · simp [hu]; intro h; exact hp1' u n hu (hI.hold1_in u n h)
+  case at_head =>
+    intro u n; by_cases hu : u = t
+    · subst hu; simpa using h_at n
+    · simpa [hu] using hI.at_head u n
+  case saw_prev =>
+    intro u h p; by_cases hu : u = t
+    · subst hu; simpa using h_sp h p
+    · simpa [hu] using hI.saw_prev u h p
+  case saw_val =>
+    intro u p x; by_cases hu : u = t
+    · subst hu; simpa using h_sv p x
+    · simpa [hu] using hI.saw_val u p x
+  case link =>
+    intro u n tl; by_cases hu : u = t
+    · subst hu; simp [h_link]; exact hI.link u n tl
+    · simpa [hu] using hI.link u n tl
+  case link_inj =>
+    intro u w n n' tl h1 h2
+    have e1 : linking (upd s.pc t B u) = linking (s.pc u) := by
+      by_cases hu : u = t
+      · subst hu; simp [h_link]
+      · simp [hu]
+    have e2 : linking (upd s.pc t B w) = linking (s.pc w) := by
+      by_cases hu : w = t
+      · subst hu; simp [h_link]
+      · simp [hu]
+    rw [e1] at h1; rw [e2] at h2
+    exact hI.link_inj u w n n' tl h1 h2
+  case link_pending =>
+    intro j h1 h2 h3
+    obtain ⟨u, hu⟩ := hI.link_pending j h1 h2 h3
+    refine ⟨u, ?_⟩
+    by_cases e : u = t
+    · subst e; simp [h_link, hu]
+    · simp [e, hu]
+
+
+/-- `inv_pc` with unchanged protections -/
+theorem inv_pc0 {s : St} (hI : Inv s) (t : Nat) (B : Pc)
+    (h_own : ∀ n, own B = some n → s.life n = .owned t)
+    (h_val : ∀ n v, ownVal B = some (n, v) → s.value n = v)
+    (h_init : ∀ n, ownInit B = some n → s.prev n = none)
+    (h_h0 : ∀ n, hold0 B = some n → (t, n) ∈ s.prot0)
+    (h_h1 : ∀ n, hold1 B = some n → (t, n) ∈ s.prot1)
+    (h_at : ∀ h, atHead B = some h → s.pos h ≤ s.hd)
+    (h_sp : ∀ h p, sawPrev B = some (h, p) → s.prev h = some p)
+    (h_sv : ∀ p x, sawVal B = some (p, x) → s.value p = x)
+    (h_link : linking B = linking (s.pc t)) :
+    Inv { s with pc := upd s.pc t B } :=
+  inv_pc hI t B s.prot0 s.prot1 s.slot0 s.slot1 s.next hI.p0_life (fun _ _ _ h => h)
+    hI.p1_life (fun _ _ _ h => h) h_own h_val h_init h_h0 h_h1 h_at h_sp h_sv h_link
+
+/-- discharge the side goals of `inv_pc`/`inv_pc0` from the thread's old pc -/
+macro "pc_side" hI:ident t:ident hpc:ident : tactic => `(tactic|
+  (have a1 := Inv.own_life $hI $t; have a2 := Inv.own_val $hI $t; have a3 := Inv.own_init $hI $t
+   have a4 := Inv.hold0_in $hI $t; have a5 := Inv.hold1_in $hI $t; have a6 := Inv.at_head $hI $t
+   have a7 := Inv.saw_prev $hI $t; have a8 := Inv.saw_val $hI $t
+   rw [$hpc:ident] at a1 a2 a3 a4 a5 a6 a7 a8
+   simp [own, ownVal, ownInit, hold0, hold1, atHead, sawPrev, sawVal, linking, mem_addProt, mem_clr, $hpc:ident] at *
+   try grind))
+
+theorem inv_callPush {s s' : St} {t v : Nat} (hI : Inv s)
+    (h : step s (.callPush t v) = some s') : Inv s' := by
+  simp only [step] at h
+  split at h <;> try (simp at h; done)
+  rename_i n w hpc
+  split at h <;> simp at h
+  subst h
+  apply inv_pc0 hI <;> pc_side hI t hpc
+
+
+theorem inv_skip {s s' : St} {t : Nat} (hI : Inv s) (h : step s (.skip t) = some s') : Inv s' := by
+  simp only [step] at h
+  split at h <;> simp at h
+  subst h; exact hI
+
+theorem inv_rdSlot {s s' : St} {t u k : Nat} {x : Option Nat} (hI : Inv s)
+    (h : step s (.rdSlot t u k x) = some s') : Inv s' := by
+  simp only [step] at h
+  split at h <;> simp at h
+  subst h; exact hI
+
+theorem inv_retPush {s s' : St} {t : Nat} (hI : Inv s)
+    (h : step s (.retPush t) = some s') : Inv s' := by
+  simp only [step] at h
+  split at h <;> try (simp at h; done)
+  rename_i hpc
+  simp at h; subst h
+  apply inv_pc0 hI <;> pc_side hI t hpc
+
+theorem inv_callPop {s s' : St} {t : Nat} (hI : Inv s)
+    (h : step s (.callPop t) = some s') : Inv s' := by
+  simp only [step] at h
+  split at h <;> simp at h
+  rename_i hpc
+  subst h
+  apply inv_pc0 hI <;> pc_side hI t hpc
+
+theorem inv_retPop {s s' : St} {t x : Nat} (hI : Inv s)
+    (h : step s (.retPop t x) = some s') : Inv s' := by
+  simp only [step] at h
+  split at h <;> try (simp at h; done)
+  rename_i y hpc
+  split at h <;> simp at h
+  subst h
+  apply inv_pc0 hI <;> pc_side hI t hpc
+
+theorem inv_callScan {s s' : St} {t : Nat} (hI : Inv s)
+    (h : step s (.callScan t) = some s') : Inv s' := by
+  simp only [step] at h
+  split at h <;> simp at h
+  rename_i hpc
+  subst h
+  apply inv_pc0 hI <;> pc_side hI t hpc
+
+theorem inv_retScan {s s' : St} {t : Nat} (hI : Inv s)
+    (h : step s (.retScan t) = some s') : Inv s' := by
+  simp only [step] at h
+  split at h <;> simp at h
+  rename_i hpc
+  subst h
+  apply inv_pc0 hI <;> pc_side hI t hpc
+
+theorem inv_fence {s s' : St} {t : Nat} (hI : Inv s)
+    (h : step s (.fence t) = some s') : Inv s' := by
+  simp only [step] at h
+  split at h <;> try (simp at h; done)
+  all_goals (rename_i hpc; simp at h; subst h; apply inv_pc0 hI <;> pc_side hI t hpc)
+
+theorem inv_rdValue {s s' : St} {t n x : Nat} (hI : Inv s)
+    (h : step s (.rdValue t n x) = some s') : Inv s' := by
+  simp only [step] at h
+  split at h <;> try (simp at h; done)
+  rename_i hd p hpc
+  split at h <;> simp at h
+  rename_i hc
+  obtain ⟨rfl, rfl, hl⟩ := hc
+  subst h
+  apply inv_pc0 hI <;> pc_side hI t hpc
+
+theorem inv_rdPrev {s s' : St} {t n : Nat} {x : Option Nat} (hI : Inv s)
+    (h : step s (.rdPrev t n x) = some s') : Inv s' := by
+  simp only [step] at h
+  split at h <;> try (simp at h; done)
+  rename_i hd hpc
+  split at h <;> try (simp at h; done)
+  rename_i hc
+  obtain ⟨rfl, rfl, hl⟩ := hc
+  split at h
+  all_goals (simp at h; subst h; apply inv_pc0 hI <;> pc_side hI t hpc)
+
+
+theorem inv_wrNext {s s' : St} {t n : Nat} {x : Option Nat} (hI : Inv s)
+    (h : step s (.wrNext t n x) = some s') : Inv s' := by
+  simp only [step] at h
+  split at h <;> try (simp at h; done)
+  rename_i m v tl hpc
+  split at h <;> simp at h
+  subst h
+  apply inv_pc hI t _ s.prot0 s.prot1 s.slot0 s.slot1 _ hI.p0_life (fun _ _ _ h => h)
+    hI.p1_life (fun _ _ _ h => h) <;> pc_side hI t hpc
+
+theorem inv_ldTail {s s' : St} {t x : Nat} (hI : Inv s)
+    (h : step s (.ldTail t x) = some s') : Inv s' := by
+  simp only [step] at h
+  split at h <;> try (simp at h; done)
+  · rename_i n v hpc
+    split at h <;> simp at h
+    subst h
+    apply inv_pc0 hI <;> pc_side hI t hpc
+  · rename_i n v tl hpc
+    split at h <;> try (simp at h; done)
+    rename_i hx
+    split at h
+    · rename_i hx2
+      simp at h; subst h
+      have hlen := hI.hd_lt
+      have hq := hI.q_life (s.len - 1) (by omega) (by omega)
+      rw [← hI.tail_eq] at hq
+      have hp0 := hI.p0_life
+      apply inv_pc hI t _ _ s.prot1 s.slot0 s.slot1 s.next ?_ ?_
+        hI.p1_life (fun _ _ _ h => h)
+      all_goals first
+        | (intro u m; simp only [mem_addProt]; grind)
+        | pc_side hI t hpc
+    · simp at h; subst h
+      apply inv_pc0 hI <;> pc_side hI t hpc
+
+
+theorem inv_ldHead {s s' : St} {t x : Nat} (hI : Inv s)
+    (h : step s (.ldHead t x) = some s') : Inv s' := by
+  simp only [step] at h
+  split at h <;> try (simp at h; done)
+  · rename_i hpc
+    split at h <;> simp at h
+    subst h
+    apply inv_pc0 hI <;> pc_side hI t hpc
+  · rename_i hd hpc
+    split at h <;> try (simp at h; done)
+    rename_i hx
+    split at h
+    · rename_i hx2
+      simp at h; subst h
+      have hlen := hI.hd_lt
+      have hq := hI.q_life s.hd (by omega) (by omega)
+      have hqp := hI.q_pos s.hd (by omega) (by omega)
+      rw [← hI.head_eq] at hq hqp
+      have hp0 := hI.p0_life
+      apply inv_pc hI t _ _ s.prot1 s.slot0 s.slot1 s.next ?_ ?_
+        hI.p1_life (fun _ _ _ h => h)
+      all_goals first
+        | (intro u m; simp only [mem_addProt]; grind)
+        | pc_side hI t hpc
+    · simp at h; subst h
+      apply inv_pc0 hI <;> pc_side hI t hpc
+  · rename_i hd p hpc
+    split at h <;> try (simp at h; done)
+    rename_i hx
+    split at h
+    · rename_i hx2
+      simp at h; subst h
+      have hlen := hI.hd_lt
+      have hq := hI.q_life s.hd (by omega) (by omega)
+      have hqp := hI.q_pos s.hd (by omega) (by omega)
+      rw [← hI.head_eq] at hq hqp
+      have hsp := hI.saw_prev t hd p (by simp [hpc, sawPrev])
+      have hqv := hI.q_prev s.hd (by omega) (by omega)
+      rw [← hI.head_eq] at hqv
+      have hp : s.life p = .inq := by
+        subst hx2; subst hx
+        rw [hsp] at hqv; simp at hqv
+        obtain ⟨h1, h2⟩ := hqv
+        rw [h2]; exact hI.q_life _ (by omega) h1
+      have hp1 := hI.p1_life
+      apply inv_pc hI t _ s.prot0 _ s.slot0 s.slot1 s.next hI.p0_life (fun _ _ _ h => h) ?_ ?_
+      all_goals first
+        | (intro u m; simp only [mem_addProt]; grind)
+        | pc_side hI t hpc
+    · simp at h; subst h
+      apply inv_pc0 hI <;> pc_side hI t hpc
+
+
+theorem clr_life {s : St} (hI : ∀ u n, (u, n) ∈ l → s.life n = .inq ∨ s.life n = .retired) (t : Nat) :
+    ∀ u n, (u, n) ∈ clr l t → s.life n = .inq ∨ s.life n = .retired := by
+  intro u n h; exact hI u n (mem_clr.mp h).1
+
+theorem clr_keep (l : List (Nat × Nat)) (t : Nat) :
+    ∀ u n, u ≠ t → (u, n) ∈ l → (u, n) ∈ clr l t := by
+  intro u n hu h; exact mem_clr.mpr ⟨h, hu⟩
+
+theorem inv_wrSlot {s s' : St} {t u k : Nat} {x : Option Nat} (hI : Inv s)
+    (h : step s (.wrSlot t u k x) = some s') : Inv s' := by
+  simp only [step] at h
+  split at h <;> try (simp at h; done)
+  split at h
+  · split at h <;> try (simp at h; done)
+    all_goals
+      rename_i hpc
+      split at h <;> simp at h
+      subst h
+      apply inv_pc hI t _ _ s.prot1 _ s.slot1 s.next (clr_life hI.p0_life t) (clr_keep _ t)
+        hI.p1_life (fun _ _ _ h => h) <;> pc_side hI t hpc
+  · split at h <;> try (simp at h; done)
+    split at h <;> try (simp at h; done)
+    all_goals
+      rename_i hpc
+      split at h <;> simp at h
+      subst h
+      apply inv_pc hI t _ s.prot0 _ s.slot0 _ s.next hI.p0_life (fun _ _ _ h => h)
+        (clr_life hI.p1_life t) (clr_keep _ t) <;> pc_side hI t hpc
+
+
+theorem inv_take {s s' : St} {t n : Nat} (hI : Inv s)
+    (h : step s (.take t n) = some s') : Inv s' := by
+  simp only [step] at h
+  split at h <;> simp at h
+  rename_i hc
+  obtain ⟨hpc, hfree⟩ := hc
+  subst h
+  constructor <;> simp only []
+  case hd_lt => exact hI.hd_lt
+  case head_eq => exact hI.head_eq
+  case tail_eq => exact hI.tail_eq
+  case q_life => have := hI.q_life; grind [upd_apply]
+  case q_pos => exact hI.q_pos
+  case inq_pos => have := hI.inq_pos; grind [upd_apply]
+  case ret_prev => have := hI.ret_prev; grind [upd_apply]
+  case q_prev => exact hI.q_prev
+  case q_val => exact hI.q_val
+  case p0_life => have := hI.p0_life; grind [upd_apply]
+  case p1_life => have := hI.p1_life; grind [upd_apply]
+  case own_life => have := hI.own_life; grind [upd_apply, own]
+  case own_val => have := hI.own_val; grind [upd_apply, ownVal]
+  case own_init => have := hI.own_init; grind [upd_apply, ownInit]
+  case hold0_in => have := hI.hold0_in; grind [upd_apply, hold0]
+  case hold1_in => have := hI.hold1_in; grind [upd_apply, hold1]
+  case at_head => have := hI.at_head; grind [upd_apply, atHead]
+  case saw_prev => have := hI.saw_prev; grind [upd_apply, sawPrev]
+  case saw_val => have := hI.saw_val; grind [upd_apply, sawVal]
+  case link => have := hI.link; grind [upd_apply, linking]
+  case link_inj => have := hI.link_inj; grind [upd_apply, linking]
+  case link_pending =>
+    intro j h1 h2 h3
+    obtain ⟨u, hu⟩ := hI.link_pending j h1 h2 h3
+    refine ⟨u, ?_⟩
+    have : u ≠ t := by intro e; subst e; simp [hpc, linking] at hu
+    simp [this, hu]
+  case pushed_len => exact hI.pushed_len
+  case pushed_val => exact hI.pushed_val
+  case popped_eq => exact hI.popped_eq
+
+
+theorem inv_wrValue {s s' : St} {t n v : Nat} (hI : Inv s)
+    (h : step s (.wrValue t n v) = some s') : Inv s' := by
+  simp only [step] at h
+  split at h <;> try (simp at h; done)
+  rename_i m hpc
+  split at h <;> simp at h
+  rename_i hc
+  obtain ⟨rfl, hfree⟩ := hc
+  subst h
+  have hown := hI.own_life t n (by simp [hpc, own])
+  constructor <;> simp only []
+  case hd_lt => exact hI.hd_lt
+  case head_eq => exact hI.head_eq
+  case tail_eq => exact hI.tail_eq
+  case q_life => exact hI.q_life
+  case q_pos => exact hI.q_pos
+  case inq_pos => exact hI.inq_pos
+  case ret_prev => exact hI.ret_prev
+  case q_prev => exact hI.q_prev
+  case q_val => have := hI.q_val; have := hI.q_life; grind [upd_apply]
+  case p0_life => exact hI.p0_life
+  case p1_life => exact hI.p1_life
+  case own_life => have := hI.own_life; grind [upd_apply, own]
+  case own_val => have := hI.own_val; have := hI.own_life; grind [upd_apply, ownVal, ownVal_own]
+  case own_init => have := hI.own_init; grind [upd_apply, ownInit]
+  case hold0_in => have := hI.hold0_in; grind [upd_apply, hold0]
+  case hold1_in => have := hI.hold1_in; grind [upd_apply, hold1]
+  case at_head => have := hI.at_head; grind [upd_apply, atHead]
+  case saw_prev => have := hI.saw_prev; grind [upd_apply, sawPrev]
+  case saw_val =>
+    have := hI.saw_val; have := hI.hold1_in; have := hI.p1_life
+    grind [upd_apply, sawVal, → sawVal_hold1]
+  case link => have := hI.link; grind [upd_apply, linking]
+  case link_inj => have := hI.link_inj; grind [upd_apply, linking]
+  case link_pending =>
+    intro j h1 h2 h3
+    obtain ⟨u, hu⟩ := hI.link_pending j h1 h2 h3
+    refine ⟨u, ?_⟩
+    have : u ≠ t := by intro e; subst e; simp [hpc, linking] at hu
+    simp [this, hu]
+  case pushed_len => exact hI.pushed_len
+  case pushed_val => exact hI.pushed_val
+  case popped_eq => exact hI.popped_eq
+
+
+theorem inv_wrPrev {s s' : St} {t n : Nat} {x : Option Nat} (hI : Inv s)
+    (h : step s (.wrPrev t n x) = some s') : Inv s' := by
+  simp only [step] at h
+  split at h <;> try (simp at h; done)
+  · -- new->prev = NULL on the thread's own node
+    rename_i m v hpc
+    split at h <;> simp at h
+    rename_i hc
+    obtain ⟨rfl, rfl, hfree⟩ := hc
+    subst h
+    have hown := hI.own_life t n (by simp [hpc, own])
+    constructor <;> simp only []
+    case hd_lt => exact hI.hd_lt
+    case head_eq => exact hI.head_eq
+    case tail_eq => exact hI.tail_eq
+    case q_life => exact hI.q_life
+    case q_pos => exact hI.q_pos
+    case inq_pos => exact hI.inq_pos
+    case ret_prev => have := hI.ret_prev; grind [upd_apply]
+    case q_prev => have := hI.q_prev; have := hI.q_life; grind [upd_apply]
+    case q_val => exact hI.q_val
+    case p0_life => exact hI.p0_life
+    case p1_life => exact hI.p1_life
+    case own_life => have := hI.own_life; grind [upd_apply, own]
+    case own_val => have := hI.own_val; grind [upd_apply, ownVal]
+    case own_init => have := hI.own_init; grind [upd_apply, ownInit]
+    case hold0_in => have := hI.hold0_in; grind [upd_apply, hold0]
+    case hold1_in => have := hI.hold1_in; grind [upd_apply, hold1]
+    case at_head => have := hI.at_head; grind [upd_apply, atHead]
+    case saw_prev =>
+      have := hI.saw_prev; have := hI.hold0_in; have := hI.p0_life
+      grind [upd_apply, sawPrev, → sawPrev_hold0]
+    case saw_val => have := hI.saw_val; grind [upd_apply, sawVal]
+    case link => have := hI.link; grind [upd_apply, linking]
+    case link_inj => have := hI.link_inj; grind [upd_apply, linking]
+    case link_pending =>
+      intro j h1 h2 h3
+      have hq := hI.q_life j h1 (by omega)
+      have hne : s.ordN j ≠ n := by intro e; rw [e] at hq; simp [hq] at hown
+      simp [upd_apply, hne] at h3
+      obtain ⟨u, hu⟩ := hI.link_pending j h1 h2 h3
+      refine ⟨u, ?_⟩
+      have : u ≠ t := by intro e; subst e; simp [hpc, linking] at hu
+      simp [this, hu]
+    case pushed_len => exact hI.pushed_len
+    case pushed_val => exact hI.pushed_val
+    case popped_eq => exact hI.popped_eq
+  · -- tail->prev = new after the successful CAS
+    rename_i m v tl hpc
+    split at h <;> simp at h
+    rename_i hc
+    obtain ⟨rfl, rfl, hfree⟩ := hc
+    subst h
+    obtain ⟨l1, l2, l3, l4, l5⟩ := hI.link t m n (by simp [hpc, linking])
+    have hh0 := hI.p0_life t n (hI.hold0_in t n (by simp [hpc, hold0]))
+    have hlt : linking (s.pc t) = some (m, n) := by simp [hpc, linking]
+    constructor <;> simp only []
+    case hd_lt => exact hI.hd_lt
+    case head_eq => exact hI.head_eq
+    case tail_eq => exact hI.tail_eq
+    case q_life => exact hI.q_life
+    case q_pos => exact hI.q_pos
+    case inq_pos => exact hI.inq_pos
+    case ret_prev => have := hI.ret_prev; grind [upd_apply]
+    case q_prev => have := hI.q_prev; have := hI.q_pos; grind [upd_apply]
+    case q_val => exact hI.q_val
+    case p0_life => exact hI.p0_life
+    case p1_life => exact hI.p1_life
+    case own_life => have := hI.own_life; grind [upd_apply, own]
+    case own_val => have := hI.own_val; grind [upd_apply, ownVal]
+    case own_init =>
+      have := hI.own_init; have := hI.own_life
+      grind [upd_apply, ownInit, → ownInit_own]
+    case hold0_in => have := hI.hold0_in; grind [upd_apply, hold0]
+    case hold1_in => have := hI.hold1_in; grind [upd_apply, hold1]
+    case at_head => have := hI.at_head; grind [upd_apply, atHead]
+    case saw_prev => have := hI.saw_prev; grind [upd_apply, sawPrev]
+    case saw_val => have := hI.saw_val; grind [upd_apply, sawVal]
+    case link =>
+      intro u n' tl' hu
+      by_cases e : u = t
+      · subst e; simp [linking] at hu
+      · simp [e] at hu
+        have hne : tl' ≠ n := by
+          intro e2; subst e2
+          exact e (hI.link_inj u t n' m tl' hu hlt)
+        simp [upd_apply, hne]
+        exact hI.link u n' tl' hu
+    case link_inj => have := hI.link_inj; grind [upd_apply, linking]
+    case link_pending =>
+      intro j h1 h2 h3
+      have hne : s.ordN j ≠ n := by intro e; simp [upd_apply, e] at h3
+      simp [upd_apply, hne] at h3
+      obtain ⟨u, hu⟩ := hI.link_pending j h1 h2 h3
+      refine ⟨u, ?_⟩
+      have : u ≠ t := by
+        intro e; subst e; rw [hlt] at hu; simp at hu; exact hne hu.2.symm
+      simp [this, hu]
+    case pushed_len => exact hI.pushed_len
+    case pushed_val => exact hI.pushed_val
+    case popped_eq => exact hI.popped_eq
+
+
+theorem inv_reclaim {s s' : St} {t n : Nat} (hI : Inv s)
+    (h : step s (.reclaim t n) = some s') : Inv s' := by
+  simp only [step] at h
+  split at h <;> simp at h
+  rename_i hc
+  obtain ⟨hscan, hret, hu0, hu1⟩ := hc
+  subst h
+  have h0 : ∀ u m, (u, m) ∈ s.prot0 → m ≠ n := fun u m hm => unprot_ne hu0 hm
+  have h1 : ∀ u m, (u, m) ∈ s.prot1 → m ≠ n := fun u m hm => unprot_ne hu1 hm
+  constructor <;> simp only []
+  case hd_lt => exact hI.hd_lt
+  case head_eq => exact hI.head_eq
+  case tail_eq => exact hI.tail_eq
+  case q_life => have := hI.q_life; grind [upd_apply]
+  case q_pos => exact hI.q_pos
+  case inq_pos => have := hI.inq_pos; grind [upd_apply]
+  case ret_prev => have := hI.ret_prev; grind [upd_apply]
+  case q_prev => exact hI.q_prev
+  case q_val => exact hI.q_val
+  case p0_life => have := hI.p0_life; grind [upd_apply]
+  case p1_life => have := hI.p1_life; grind [upd_apply]
+  case own_life => have := hI.own_life; grind [upd_apply]
+  case own_val => exact hI.own_val
+  case own_init => exact hI.own_init
+  case hold0_in => exact hI.hold0_in
+  case hold1_in => exact hI.hold1_in
+  case at_head => exact hI.at_head
+  case saw_prev => exact hI.saw_prev
+  case saw_val => exact hI.saw_val
+  case link => exact hI.link
+  case link_inj => exact hI.link_inj
+  case link_pending => exact hI.link_pending
+  case pushed_len => exact hI.pushed_len
+  case pushed_val => exact hI.pushed_val
+  case popped_eq => exact hI.popped_eq
+
+theorem take_succ_of_getElem? {l : List Nat} {i x : Nat} (h : l[i]? = some x) :
+    l.take (i + 1) = l.take i ++ [x] := by
+  rw [List.take_add_one, h]; rfl
+
+theorem inv_casHead {s s' : St} {t f e d : Nat} {ok : Bool} (hI : Inv s)
+    (h : step s (.casHead t f e d ok) = some s') : Inv s' := by
+  simp only [step] at h
+  split at h <;> try (simp at h; done)
+  rename_i hd p x hpc
+  split at h <;> try (simp at h; done)
+  rename_i hc
+  obtain ⟨hf, he, hdd, hok⟩ := hc
+  split at h
+  · simp at h; subst h
+    have hfh : s.head = hd := by simp_all
+    have hlen := hI.hd_lt
+    have hN : s.ordN s.hd = hd := by rw [← hI.head_eq]; exact hfh
+    have hsp := hI.saw_prev t hd p (by simp [hpc, sawPrev])
+    have hsv := hI.saw_val t p x (by simp [hpc, sawVal])
+    have hq := hI.q_life s.hd (by omega) (by omega)
+    have hqp := hI.q_pos s.hd (by omega) (by omega)
+    have hqv := hI.q_prev s.hd (by omega) (by omega)
+    rw [hN] at hq hqp hqv
+    rw [hsp] at hqv; simp at hqv
+    obtain ⟨hlt, hP⟩ := hqv
+    have hxv : x = s.ordV (s.hd + 1) := by
+      rw [← hsv, hP]; exact hI.q_val _ (by omega) hlt
+    constructor <;> simp only []
+    case hd_lt => omega
+    case head_eq => exact hP
+    case tail_eq => exact hI.tail_eq
+    case q_life => have := hI.q_life; have := hI.q_pos; grind [upd_apply]
+    case q_pos => have := hI.q_pos; grind
+    case inq_pos => have := hI.inq_pos; grind [upd_apply]
+    case ret_prev => have := hI.ret_prev; grind [upd_apply]
+    case q_prev => have := hI.q_prev; grind
+    case q_val => have := hI.q_val; grind
+    case p0_life => have := hI.p0_life; grind [upd_apply]
+    case p1_life => have := hI.p1_life; grind [upd_apply]
+    case own_life => have := hI.own_life; grind [upd_apply, own]
+    case own_val => have := hI.own_val; grind [upd_apply, ownVal]
+    case own_init => have := hI.own_init; grind [upd_apply, ownInit]
+    case hold0_in => have := hI.hold0_in; grind [upd_apply, hold0]
+    case hold1_in => have := hI.hold1_in; grind [upd_apply, hold1]
+    case at_head => have := hI.at_head; grind [upd_apply, atHead]
+    case saw_prev => have := hI.saw_prev; grind [upd_apply, sawPrev]
+    case saw_val => have := hI.saw_val; grind [upd_apply, sawVal]
+    case link => have := hI.link; grind [upd_apply, linking]
+    case link_inj => have := hI.link_inj; grind [upd_apply, linking]
+    case link_pending =>
+      intro j h1 h2 h3
+      obtain ⟨u, hu⟩ := hI.link_pending j (by omega) h2 h3
+      refine ⟨u, ?_⟩
+      have : u ≠ t := by intro e; subst e; simp [hpc, linking] at hu
+      simp [this, hu]
+    case pushed_len => exact hI.pushed_len
+    case pushed_val => exact hI.pushed_val
+    case popped_eq =>
+      have := hI.pushed_val s.hd hlt
+      rw [take_succ_of_getElem? this, ← hI.popped_eq, hxv]
+  · simp at h; subst h
+    apply inv_pc0 hI <;> pc_side hI t hpc
+
+
+theorem inv_casTail {s s' : St} {t f e d : Nat} {ok : Bool} (hI : Inv s)
+    (h : step s (.casTail t f e d ok) = some s') : Inv s' := by
+  simp only [step] at h
+  split at h <;> try (simp at h; done)
+  rename_i n v tl hpc
+  split at h <;> try (simp at h; done)
+  rename_i hc
+  obtain ⟨hf, he, hd, hok⟩ := hc
+  split at h
+  · simp at h; subst h
+    have hft : s.tail = tl := by simp_all
+    have hown := hI.own_life t n (by simp [hpc, own, ownVal, ownInit, hold0])
+    have hval := hI.own_val t n v (by simp [hpc, own, ownVal, ownInit, hold0])
+    have hini := hI.own_init t n (by simp [hpc, own, ownVal, ownInit, hold0])
+    have hh0 := hI.hold0_in t tl (by simp [hpc, own, ownVal, ownInit, hold0])
+    have hq := hI.q_life (s.len - 1) (by have := hI.hd_lt; omega) (by have := hI.hd_lt; omega)
+    have hqp := hI.q_pos (s.len - 1) (by have := hI.hd_lt; omega) (by have := hI.hd_lt; omega)
+    have htl : s.ordN (s.len - 1) = tl := by rw [← hI.tail_eq]; exact hft
+    rw [htl] at hq hqp
+    have hne : tl ≠ n := by intro h; rw [h] at hq; simp [hq] at hown
+    have hlen := hI.hd_lt
+    constructor <;> simp only [] 
+    case hd_lt => omega
+    case head_eq => have := hI.head_eq; grind [upd_apply]
+    case tail_eq => grind [upd_apply]
+    case q_life => have := hI.q_life; grind [upd_apply]
+    case q_pos => have := hI.q_pos; have := hI.q_life; grind [upd_apply]
+    case inq_pos => have := hI.inq_pos; grind [upd_apply]
+    case ret_prev => have := hI.ret_prev; grind [upd_apply]
+    case q_prev => have := hI.q_prev;  grind [upd_apply]
+    case q_val => have := hI.q_val; grind [upd_apply]
+    case p0_life => have := hI.p0_life; grind [upd_apply]
+    case p1_life => have := hI.p1_life; grind [upd_apply]
+    case own_life => have := hI.own_life; grind [upd_apply, own]
+    case own_val => have := hI.own_val; have := hI.own_life; grind [upd_apply, ownVal, own]
+    case own_init => have := hI.own_init; grind [upd_apply, ownInit]
+    case hold0_in => have := hI.hold0_in; grind [upd_apply, hold0]
+    case hold1_in => have := hI.hold1_in; grind [upd_apply, hold1]
+    case at_head => have := hI.at_head; have := hI.hold0_in; have := hI.p0_life; grind [upd_apply, atHead, atHead_hold0]
+    case saw_prev => have := hI.saw_prev; grind [upd_apply, sawPrev]
+    case saw_val => have := hI.saw_val; have := hI.hold1_in; have := hI.p1_life; grind [upd_apply, sawVal, sawVal_hold1]
+    case link => 
+      have := hI.link; have := hI.hold0_in; have := hI.p0_life; have := hI.q_prev (s.len - 1)
+      grind [upd_apply, linking, linking_hold0]
+    case link_inj => have := hI.link_inj; have := hI.link; grind [upd_apply, linking]
+    case link_pending =>
+      intro j h1 h2 h3
+      by_cases hj : j + 1 = s.len
+      · refine ⟨t, ?_⟩
+        have : j = s.len - 1 := by omega
+        subst this
+        simp [upd_apply, hj, htl, linking]; omega
+      · have hj' : j ≠ s.len := by omega
+        simp [upd_apply, hj, hj'] at h3 ⊢
+        obtain ⟨u, hu⟩ := hI.link_pending j h1 (by omega) h3
+        refine ⟨u, ?_⟩
+        have : u ≠ t := by intro e; subst e; simp [hpc, linking] at hu
+        simp [this, hu]
+    case pushed_len => have := hI.pushed_len; simp; omega
+    case pushed_val =>
+      intro j hj
+      have hl := hI.pushed_len
+      by_cases e : j + 1 = s.len
+      · have : j = s.pushed.length := by omega
+        subst this; simp [upd_apply, e, List.getElem?_append_right]
+      · have h1 : j < s.pushed.length := by omega
+        rw [List.getElem?_append_left h1]
+        simp [upd_apply, e]; exact hI.pushed_val j (by omega)
+    case popped_eq =>
+      have hl := hI.pushed_len
+      rw [List.take_append_of_le_length (by omega)]; exact hI.popped_eq
+  · simp at h; subst h
+    apply inv_pc0 hI <;> pc_side hI t hpc
+
+
+theorem inv_step {s s' : St} {e : Ev} (hI : Inv s) (h : step s e = some s') : Inv s' := by
+  cases e with
+  | take t n => exact inv_take hI h
+  | skip t => exact inv_skip hI h
+  | callPush t v => exact inv_callPush hI h
+  | retPush t => exact inv_retPush hI h
+  | callPop t => exact inv_callPop hI h
+  | retPop t x => exact inv_retPop hI h
+  | callScan t => exact inv_callScan hI h
+  | retScan t => exact inv_retScan hI h
+  | wrValue t n v => exact inv_wrValue hI h
+  | rdValue t n x => exact inv_rdValue hI h
+  | wrPrev t n x => exact inv_wrPrev hI h
+  | rdPrev t n x => exact inv_rdPrev hI h
+  | wrNext t n x => exact inv_wrNext hI h
+  | ldTail t x => exact inv_ldTail hI h
+  | ldHead t x => exact inv_ldHead hI h
+  | casTail t f e d ok => exact inv_casTail hI h
+  | casHead t f e d ok => exact inv_casHead hI h
+  | wrSlot t u k x => exact inv_wrSlot hI h
+  | rdSlot t u k x => exact inv_rdSlot hI h
+  | fence t => exact inv_fence hI h
+  | reclaim t n => exact inv_reclaim hI h
+
+theorem inv_reachable {s : St} (h : sys.Reachable s) : Inv s :=
+  Sys.inv_of_step sys Inv inv_init (fun _ _ _ hI hs => inv_step hI hs) h
+
+theorem inv_of_run {es : List Ev} {s : St} (h : sys.run es = some s) : Inv s :=
+  inv_reachable (Sys.reachable_of_run sys h)
+
+/-! ### consequences of the invariant used by the property theorems -/
+
+theorem next_not_free {s : St} (hI : Inv s) (t n : Nat) (h : nextAccess (s.pc t) = some n) :
+    s.life n ≠ .free := by
+  have a1 := hI.own_life t; have a4 := hI.hold0_in t; have a5 := hI.hold1_in t
+  have p0 := hI.p0_life t; have p1 := hI.p1_life t
+  cases hpc : s.pc t <;> simp [hpc, nextAccess] at h <;> subst h <;>
+    simp [hpc, own, hold0, hold1] at a1 a4 a5 <;> grind
+
+/-- every node-field access the model accepts is the one `nextAccess` names -/
+theorem access_is_next {s s' : St} {e : Ev} (h : step s e = some s') :
+    (∀ t n v, e = .wrValue t n v → nextAccess (s.pc t) = some n) ∧
+    (∀ t n x, e = .rdValue t n x → nextAccess (s.pc t) = some n) ∧
+    (∀ t n x, e = .wrPrev t n x → nextAccess (s.pc t) = some n) ∧
+    (∀ t n x, e = .rdPrev t n x → nextAccess (s.pc t) = some n) ∧
+    (∀ t n x, e = .wrNext t n x → nextAccess (s.pc t) = some n) := by
+  refine ⟨?_, ?_, ?_, ?_, ?_⟩ <;> intro t n x he <;> subst he <;> simp only [step] at h <;>
+    split at h <;> simp at h <;> rename_i hpc <;> simp [hpc, nextAccess] <;>
+    (try split at h) <;> simp_all
+
+/-- what a successful head CAS sees -/
+theorem casHead_facts {s : St} (hI : Inv s) {t h p x : Nat} (hpc : s.pc t = .popGotVal h p x)
+    (hh : s.head = h) :
+    s.hd + 1 < s.len ∧ p = s.ordN (s.hd + 1) ∧ x = s.ordV (s.hd + 1) ∧
+    x = s.value (s.ordN (s.hd + 1)) ∧ s.pushed[s.hd]? = some x := by
+  have hlen := hI.hd_lt
+  have hN : s.ordN s.hd = h := by rw [← hI.head_eq]; exact hh
+  have hsp := hI.saw_prev t h p (by simp [hpc, sawPrev])
+  have hsv := hI.saw_val t p x (by simp [hpc, sawVal])
+  have hqv := hI.q_prev s.hd (by omega) (by omega)
+  rw [hN, hsp] at hqv; simp at hqv
+  obtain ⟨hlt, hP⟩ := hqv
+  have hxv : x = s.ordV (s.hd + 1) := by
+    rw [← hsv, hP]; exact hI.q_val _ (by omega) hlt
+  refine ⟨hlt, hP, hxv, ?_, ?_⟩
+  · rw [← hP, hsv]
+  · rw [hxv]; exact hI.pushed_val s.hd hlt
+
+/-- what the read `head->prev == NULL` on the validated head sees -/
+theorem empty_facts {s : St} (hI : Inv s) {t h : Nat} (hpc : s.pc t = .popVal0 h)
+    (hp : s.prev h = none) :
+    h = s.ordN s.hd ∧
+    (s.hd + 1 = s.len ∨ ∃ u, linking (s.pc u) = some (s.ordN (s.hd + 1), s.ordN s.hd)) := by
+  have hlen := hI.hd_lt
+  have hin := hI.hold0_in t h (by simp [hpc, hold0])
+  have hat := hI.at_head t h (by simp [hpc, atHead])
+  have hl : s.life h = .inq := by
+    rcases hI.p0_life t h hin with h1 | h1
+    · exact h1
+    · exact absurd hp (hI.ret_prev h h1)
+  obtain ⟨i1, i2, i3⟩ := hI.inq_pos h hl
+  have hpos : s.pos h = s.hd := by omega
+  have hN : h = s.ordN s.hd := by rw [← hpos]; exact i3.symm
+  refine ⟨hN, ?_⟩
+  by_cases hlt : s.hd + 1 < s.len
+  · right
+    exact hI.link_pending s.hd (by omega) hlt (by rw [← hN]; exact hp)
+  · left; omega
+
+
+/-! ### refinement of the sequential specification (linearisation-point form) -/
+
+structure Rel (a : Spec) (s : St) : Prop where
+  q_eq : a.q = s.pushed.drop s.hd
+  ph_eq : ∀ t, a.ph t = phaseOf (s.pc t)
+  fl_in : ∀ t, phaseOf (s.pc t) = .pushLin → t ∈ a.fl
+
+theorem rel_init : Rel Spec.init init := by
+  constructor <;> simp [Spec.init, init, phaseOf]
+
+/-- a step that only moves thread `t` to a pc of the same phase and leaves `pushed`/`hd` alone -/
+theorem rel_frame {a : Spec} {s s' : St} (hR : Rel a s) (t : Nat) (B : Pc)
+    (hpc : s'.pc = upd s.pc t B) (hph : phaseOf B = phaseOf (s.pc t))
+    (hp : s'.pushed = s.pushed) (hh : s'.hd = s.hd) : Rel a s' := by
+  have e : ∀ u, phaseOf (s'.pc u) = phaseOf (s.pc u) := by
+    intro u; rw [hpc]; by_cases hu : u = t
+    · subst hu; simp [hph]
+    · simp [hu]
+  constructor
+  · rw [hp, hh]; exact hR.q_eq
+  · intro u; rw [e]; exact hR.ph_eq u
+  · intro u; rw [e]; exact hR.fl_in u
+
+macro "rel_none_tac" h:ident hR:ident : tactic => `(tactic|
+  (simp only [step] at $h:ident
+   repeat' (split at $h:ident)
+   all_goals first | (simp at $h:ident; done) | skip
+   all_goals
+     simp at $h:ident
+     first | (obtain ⟨hc, rfl⟩ := $h:ident) | (subst $h:ident)
+     first
+       | exact $hR
+       | (constructor <;> simp only [] <;> first | exact Rel.q_eq $hR | exact Rel.ph_eq $hR | exact Rel.fl_in $hR)
+       | (simp_all; done)
+       | (refine rel_frame $hR _ _ rfl ?_ rfl rfl; simp_all [phaseOf])))
+
+theorem rel_step_none {a : Spec} {s s' : St} {e : Ev} (hR : Rel a s)
+    (h : step s e = some s') (ha : api e = none) : Rel a s' := by
+  cases e
+  case casTail t f e d ok => cases ok <;> simp [api] at ha; rel_none_tac h hR
+  case casHead t f e d ok => cases ok <;> simp [api] at ha; rel_none_tac h hR
+  case rdPrev t n x => cases x <;> simp [api] at ha; rel_none_tac h hR
+  all_goals first | (simp [api] at ha; done) | rel_none_tac h hR
+
+
+/-- phases after thread `t` moved to a pc of phase `P` -/
+theorem ph_upd {a : Spec} {s : St} (hR : Rel a s) (t : Nat) (B : Pc) (P : Phase)
+    (hB : phaseOf B = P) : ∀ u, upd a.ph t P u = phaseOf (upd s.pc t B u) := by
+  intro u; by_cases hu : u = t
+  · subst hu; simp [hB]
+  · simp [hu]; exact hR.ph_eq u
+
+theorem drop_cons_of_getElem? {l : List Nat} {i x : Nat} (h : l[i]? = some x) :
+    l.drop i = x :: l.drop (i + 1) := by
+  obtain ⟨hi, rfl⟩ := List.getElem?_eq_some_iff.mp h
+  exact List.drop_eq_getElem_cons hi
+
+theorem rel_step_some {a : Spec} {s s' : St} {e : Ev} {x : Api} (hI : Inv s) (hR : Rel a s)
+    (h : step s e = some s') (ha : api e = some x) :
+    ∃ a', Spec.step a x = some a' ∧ Rel a' s' := by
+  cases e <;> simp [api] at ha
+  case callPush t v =>
+    subst ha
+    simp only [step] at h
+    split at h <;> try (simp at h; done)
+    rename_i n w hpc
+    split at h <;> simp at h
+    rename_i hv; subst hv; subst h
+    have hph : a.ph t = .idle := by rw [hR.ph_eq, hpc]; rfl
+    refine ⟨_, by simp [Spec.step, hph]; rfl, ?_⟩
+    constructor
+    · exact hR.q_eq
+    · exact ph_upd hR t _ _ rfl
+    · intro u; by_cases hu : u = t
+      · subst hu; simp [phaseOf]
+      · simp [hu]; exact hR.fl_in u
+  case callPop t =>
+    subst ha
+    simp only [step] at h
+    split at h <;> simp at h
+    rename_i hpc; subst h
+    have hph : a.ph t = .idle := by rw [hR.ph_eq, hpc]; rfl
+    refine ⟨_, by simp [Spec.step, hph]; rfl, ?_⟩
+    constructor
+    · exact hR.q_eq
+    · exact ph_upd hR t _ _ rfl
+    · intro u; by_cases hu : u = t
+      · subst hu; simp [phaseOf]
+      · simp [hu]; exact hR.fl_in u
+  case retPop t y =>
+    subst ha
+    simp only [step] at h
+    split at h <;> try (simp at h; done)
+    rename_i z hpc
+    split at h <;> simp at h
+    rename_i hv; subst hv; subst h
+    have hph : a.ph t = .popLin y := by rw [hR.ph_eq, hpc]; rfl
+    refine ⟨_, by simp [Spec.step, hph]; rfl, ?_⟩
+    constructor
+    · exact hR.q_eq
+    · exact ph_upd hR t _ _ rfl
+    · intro u; by_cases hu : u = t
+      · subst hu; simp [phaseOf]
+      · simp [hu]; exact hR.fl_in u
+  case retPush t =>
+    subst ha
+    simp only [step] at h
+    split at h <;> try (simp at h; done)
+    rename_i hpc
+    simp at h; subst h
+    have hph : a.ph t = .pushLin := by rw [hR.ph_eq, hpc]; rfl
+    refine ⟨_, by simp [Spec.step, hph]; rfl, ?_⟩
+    constructor
+    · exact hR.q_eq
+    · exact ph_upd hR t _ _ rfl
+    · intro u; by_cases hu : u = t
+      · subst hu; simp [phaseOf]
+      · simp [hu]; intro hp; exact hR.fl_in u hp
+  case casTail t f e d ok =>
+    cases ok <;> simp [api] at ha
+    subst ha
+    simp only [step] at h
+    split at h <;> try (simp at h; done)
+    rename_i n v tl hpc
+    split at h <;> try (simp at h; done)
+    simp at h; subst h
+    have hph : a.ph t = .pushPend v := by rw [hR.ph_eq, hpc]; rfl
+    refine ⟨_, by simp [Spec.step, hph]; rfl, ?_⟩
+    have hl := hI.pushed_len
+    have hlen := hI.hd_lt
+    constructor
+    · simp only []
+      rw [List.drop_append_of_le_length (by omega), hR.q_eq]
+    · exact ph_upd hR t _ _ rfl
+    · intro u; by_cases hu : u = t
+      · subst hu; simp
+      · simp [hu]; intro hp; exact hR.fl_in u hp
+  case casHead t f e d ok =>
+    cases ok <;> simp [api] at ha
+    subst ha
+    simp only [step] at h
+    split at h <;> try (simp at h; done)
+    rename_i hd p x hpc
+    split at h <;> try (simp at h; done)
+    rename_i hc
+    simp at h; subst h
+    have hfh : s.head = hd := by
+      obtain ⟨h1, h2, h3, h4⟩ := hc
+      have : f = e := by simpa using h4.symm
+      rw [← h1, this, h2]
+    obtain ⟨c1, c2, c3, c4, c5⟩ := casHead_facts hI hpc hfh
+    have hph : a.ph t = .popPend := by rw [hR.ph_eq, hpc]; rfl
+    have hq : a.q = x :: s.pushed.drop (s.hd + 1) := by
+      rw [hR.q_eq]; exact drop_cons_of_getElem? c5
+    refine ⟨{ a with q := s.pushed.drop (s.hd + 1), ph := upd a.ph t (.popLin x) },
+      by simp [Spec.step, hph, hq], ?_⟩
+    constructor
+    · rfl
+    · exact ph_upd hR t _ _ rfl
+    · intro u; by_cases hu : u = t
+      · subst hu; simp [phaseOf]
+      · simp [hu]; exact hR.fl_in u
+  case rdPrev t n y =>
+    cases y <;> simp [api] at ha
+    subst ha
+    simp only [step] at h
+    split at h <;> try (simp at h; done)
+    rename_i hd hpc
+    split at h <;> try (simp at h; done)
+    rename_i hc
+    obtain ⟨rfl, hnone, hl⟩ := hc
+    simp at h; subst h
+    obtain ⟨e1, e2⟩ := empty_facts hI hpc hnone.symm
+    have hph : a.ph t = .popPend := by rw [hR.ph_eq, hpc]; rfl
+    have hlen := hI.pushed_len
+    have hemp : a.q = [] ∨ a.fl ≠ [] := by
+      rcases e2 with e2 | ⟨u, hu⟩
+      · left; rw [hR.q_eq]; exact List.drop_eq_nil_of_le (by omega)
+      · right
+        have : phaseOf (s.pc u) = .pushLin := by
+          cases hpu : s.pc u <;> simp [hpu, linking] at hu <;> rfl
+        exact List.ne_nil_of_mem (hR.fl_in u this)
+    refine ⟨{ a with ph := upd a.ph t (.popLin 0) }, by simp [Spec.step, hph, hemp], ?_⟩
+    constructor
+    · exact hR.q_eq
+    · exact ph_upd hR t _ _ rfl
+    · intro u; by_cases hu : u = t
+      · subst hu; simp [phaseOf]
+      · simp [hu]; exact hR.fl_in u
+
+
+theorem run_snoc {σ ε : Type} (M : Sys σ ε) (l : List ε) (x : ε) (a a' : σ)
+    (h : M.run l = some a) (hs : M.step a x = some a') : M.run (l ++ [x]) = some a' := by
+  simp only [Sys.run] at h ⊢
+  rw [Sys.runFrom_append, h]; simp [Sys.runFrom, hs]
+
+/-- every accepted trace, projected to the API level, is a run of the sequential specification -/
+theorem refines {es : List Ev} {s : St} (h : sys.run es = some s) :
+    Inv s ∧ ∃ a, specSys.run (es.filterMap api) = some a ∧ Rel a s := by
+  refine Sys.hist_inv_of_run sys
+    (fun s es => Inv s ∧ ∃ a, specSys.run (es.filterMap api) = some a ∧ Rel a s)
+    ⟨inv_init, Spec.init, rfl, rel_init⟩ ?_ h
+  intro s es e s' hIH hs
+  obtain ⟨hI, a, ha, hR⟩ := hIH
+  refine ⟨inv_step hI hs, ?_⟩
+  rw [List.filterMap_append]
+  cases hx : api e with
+  | none =>
+    refine ⟨a, ?_, rel_step_none hR hs hx⟩
+    simp [List.filterMap_cons, hx, ha]
+  | some x =>
+    obtain ⟨a', h1, h2⟩ := rel_step_some hI hR hs hx
+    refine ⟨a', ?_, h2⟩
+    simp only [List.filterMap_cons, hx, List.filterMap_nil]
+    exact run_snoc specSys _ x a a' ha h1
+
+
+/-! ### shape of the API-level traces the specification accepts: in each thread's own
+    sequence of events every linearisation point directly follows the invocation and every
+    response directly follows the linearisation point -/
+
+def Api.tid : Api → Nat
+  | .callPush t _ => t
+  | .linPush t => t
+  | .retPush t => t
+  | .callPop t => t
+  | .linPopOk t => t
+  | .linPopEmpty t => t
+  | .retPop t _ => t
+
+/-- the last event of thread `t` in `l` -/
+def lastOf (t : Nat) (l : List Api) : Option Api :=
+  l.foldl (fun acc x => if x.tid = t then some x else acc) none
+
+/-- what thread `t`'s phase must be, given its last event -/
+def PhaseAfter (p : Phase) : Option Api → Prop
+  | none => p = .idle
+  | some (.callPush _ v) => p = .pushPend v
+  | some (.linPush _) => p = .pushLin
+  | some (.retPush _) => p = .idle
+  | some (.callPop _) => p = .popPend
+  | some (.linPopOk _) => ∃ x, p = .popLin x
+  | some (.linPopEmpty _) => p = .popLin 0
+  | some (.retPop _ _) => p = .idle
+
+theorem spec_phase_last {l : List Api} {a : Spec} (h : specSys.run l = some a) :
+    ∀ t, PhaseAfter (a.ph t) (lastOf t l) := by
+  refine Sys.hist_inv_of_run specSys (fun a l => ∀ t, PhaseAfter (a.ph t) (lastOf t l)) ?_ ?_ h
+  · intro t; simp [specSys, Spec.init, lastOf, PhaseAfter]
+  · intro a l x a' ih hs t
+    have hl : lastOf t (l ++ [x]) = if x.tid = t then some x else lastOf t l := by
+      simp [lastOf, List.foldl_append]
+    rw [hl]
+    have := ih t
+    simp only [specSys] at hs
+    by_cases ht : x.tid = t
+    · cases x <;> simp only [Spec.step] at hs <;> (repeat' (split at hs)) <;> simp at hs <;>
+        (try subst hs) <;> simp only [Api.tid] at ht <;> subst ht <;>
+        simp_all [PhaseAfter, upd_apply, Api.tid]
+    · cases x <;> simp only [Spec.step] at hs <;> (repeat' (split at hs)) <;> simp at hs <;>
+        (try subst hs) <;> simp only [Api.tid] at ht <;>
+        simp_all [PhaseAfter, upd_apply, Api.tid] <;> (have ht' : ¬ t = _ := fun e => ht e.symm) <;>
+        simp_all
 
 end LibfiberVerif.Mpmc
